@@ -3,23 +3,17 @@ package c11
 import (
 	"encoding/json"
 	"fmt"
-	"os"
-	"runtime/pprof"
 
 	"verif/core"
 )
 
 func run(tier core.Tier) *core.Report {
 	rep := core.NewReport("C11", tier, "exploration")
-	if pf := os.Getenv("C11_PROF"); pf != "" {
-		f, _ := os.Create(pf)
-		pprof.StartCPUProfile(f)
-		defer pprof.StopCPUProfile()
-	}
 	// B first: for a defect visible at both seams the end-to-end history is the kept counterexample
 	runPartB(rep, tier)
 	runPartA(rep, tier)
-	rep.Set("rule", "Part A: index-order enumeration of (rule of the judged account/method from the threshold and key-set boxes) x (nested account rule) x (judged object: account X1 / method / account X2) x (every ordered signer list up to the size bound over the URI universe); a case is non-trivial when at least one member of the judged rule is satisfied by the signer list (measured by the reference evaluator). Part B: every sequence of events up to the depth bound over (SetAccountAcl | SetMethodAcl | spend-from-account) x new rule x signer choice, plus 'block'; a history is non-trivial when at least one change was pending while a later access decision was taken")
+	rep.Set("rule", "Part A: index-order enumeration of (rule of the judged object from the box: threshold rules with weights {0,0.4,0.5,1} on every subset of {k1,k2,k3,X2} x accept {0,0.5,1,1.5,2}, key-set rules with <= 2 sets over subsets of the same names) x (nested rule of X2) x (judged object: account X1 / contract method / account X2 where its rule names X1) x (every ordered signer list of size <= 3 over the URI universe; thorough adds every size-4 multiset in three orders); each case goes through aclutils.IdentifyAccount or CheckContractMethodPerm and the by-definition reference, and every (list minus one entry, list) pair is checked for monotonicity. A case is non-trivial when the signer list satisfies at least one member of the judged rule (measured by the reference); cases are distinct tuples by construction. "+
+		"Part B: every event sequence of the listed lengths over {SetAccountAcl(new rule, signer choice), SetMethodAcl(signer choice), spend from the account(signer choice), block} on the real chain fixture, each transaction judged at State.VerifyTx against the rule on the confirmed chain; a history is non-trivial when at least one decision was taken while a rule change was still unconfirmed")
 	rep.Assume("signature verification itself (IdentifyAK / ECDSA) is trusted; Part A takes every listed URI's LAST segment as a verified signer, as State.verifySignatures establishes")
 	rep.Assume("cases where the statement is silent are observed, not judged: URIs with an empty segment, empty key sets, member accounts without a rule, a key named inside a longer path that also signed elsewhere in the list, float sums landing exactly on the threshold with inexact weights")
 	return rep
